@@ -227,21 +227,69 @@ def run(rep, tier, root=None):
             return v
         rep_ = m if b == "m > 0" else -m
         return v.subst(lambda a: rep_ if (isinstance(a, Fn) and a.name == "abs" and len(a.args) == 1 and same_value(a.args[0], m)) else None)
-    gb, wb = {}, {}
-    dup = False
-    for src, dst in ((got, gb), (want, wb)):
-        for c, cnf, v in src:
-            k_ = branch(cnf)
-            if k_ in dst and not same_value(dst[k_], v):
-                dup = True
-            dst[k_] = v
-    if set(gb) != {"m == 0", "m > 0", "m < 0"} or dup:
-        rep.unknown("Z2.mode-definition", f.fq, "expected the three branches m == 0 / m > 0 / m < 0, found %s" % [c for c, cnf, v in got], f.where())
-    else:
-        for b in sorted(gb):
-            check_equal(rep, "Z2.mode-definition", "%s[%s] == Noll mode (normalisation, cos/sin, clipping, pupil)" % (f.fq, b),
-                        with_sign(gb[b], b), with_sign(wb[b], b), f.where(), what="Zernike mode")
-        rep.sample({"function": f.fq, "m>0": nf(gb["m > 0"], 400)})
+    CASES3 = ("m == 0", "m > 0", "m < 0")
+
+    def cases_of(cnf):
+        """the sign cases of m a path can be taken in, from its atomic conditions comparing m with 0"""
+        poss = set(CASES3)
+        for val, truth in cnf:
+            a = val.single_atom() if isinstance(val, Rat) else None
+            if not (isinstance(a, Fn) and a.name == "cmp"):
+                continue
+            op, l, r_ = a.args
+            if same_value(r_, m) and isinstance(l, Rat) and l.is_zero():
+                l, r_ = r_, l
+                op = {"<": ">", ">": "<", "<=": ">=", ">=": "<="}.get(op, op)
+            if not (same_value(l, m) and isinstance(r_, Rat) and r_.is_zero()):
+                continue
+            for case in list(poss):
+                sg = {"m == 0": 0, "m > 0": 1, "m < 0": -1}[case]
+                holds_ = {"==": sg == 0, "!=": sg != 0, ">": sg > 0, "<": sg < 0, ">=": sg >= 0, "<=": sg <= 0}.get(op)
+                if holds_ is not None and holds_ != truth:
+                    poss.discard(case)
+        return poss
+
+    def in_case(v, b):
+        """the value specialised to a sign case: m = 0, or |m| = +-m"""
+        if not isinstance(v, Rat):
+            return v
+        sg = {"m == 0": 0, "m > 0": 1, "m < 0": -1}[b]
+
+        def choose(a):
+            # conditional expressions on the sign of m are decided by the case
+            if isinstance(a, Fn) and a.name == "where3" and isinstance(a.args[0], Rat) and isinstance(a.args[0].single_atom(), Fn) \
+                    and a.args[0].single_atom().name == "cmp":
+                op, l, r_ = a.args[0].single_atom().args
+                if same_value(r_, m) and isinstance(l, Rat) and l.is_zero():
+                    l, r_ = r_, l
+                    op = {"<": ">", ">": "<", "<=": ">=", ">=": "<="}.get(op, op)
+                if same_value(l, m) and isinstance(r_, Rat) and r_.is_zero():
+                    t_ = {"==": sg == 0, "!=": sg != 0, ">": sg > 0, "<": sg < 0, ">=": sg >= 0, "<=": sg <= 0}.get(op)
+                    if t_ is not None:
+                        pick = a.args[1] if t_ else a.args[2]
+                        return pick.subst(choose) if isinstance(pick, Rat) else None
+            return None
+        v = v.subst(choose)
+        if b == "m == 0":
+            return v.subst(lambda a: Rat.const(0) if a == m.single_atom() else None)
+        return with_sign(v, b)
+    wb = {}
+    for c, cnf, v in want:
+        for b in cases_of(cnf):
+            wb[b] = v
+    covered = set()
+    if set(wb) != set(CASES3):
+        raise AnalysisError("C12 oracle noll_mode does not cover the three sign cases")
+    for c, cnf, v in got:
+        for b in sorted(cases_of(cnf)):
+            covered.add(b)
+            check_equal(rep, "Z2.mode-definition", "%s[%s | %s] == Noll mode (normalisation, cos/sin, clipping, pupil)" % (f.fq, b, "; ".join(c) or "-"),
+                        in_case(v, b), in_case(wb[b], b), f.where(), what="Zernike mode")
+    if covered != set(CASES3):
+        rep.unknown("Z2.mode-definition", f.fq, "the paths do not cover m == 0 / m > 0 / m < 0: %s" % [c for c, cnf, v in got], f.where())
+    gpos = [v for c, cnf, v in got if "m > 0" in cases_of(cnf)]
+    if gpos:
+        rep.sample({"function": f.fq, "m>0": nf(gpos[0], 400)})
 
     # ---------------------------------------------------------------- Z3
     f = F("zernIndex")
